@@ -74,4 +74,9 @@ example :
     (Cli.clone toyH (fun _ b _ => some b) ⟨⟨false, false, false⟩, none, "new", "bad.cba", []⟩ fs0).fs = fs0 := by
   decide +kernel
 
+/-- The option parser refuses a `--verify-header` value longer than a checksum (read from cli.rs on
+every run; F15 repair): what reaches the comparison is the value that was typed, not its first
+64 bytes. -/
+theorem pin_length_checked_fact : Gen.pinLengthChecked = true := by decide
+
 end Bita.Props.C14
